@@ -32,7 +32,16 @@ fn seed_bytes(i: usize, len: usize) -> Vec<u8> {
 fn root(i: usize) -> Bip32PrivateKey {
     // entropy of 16 / 20 / 32 bytes, with and without a passphrase
     let (len, pw): (usize, &[u8]) = [(16, b"" as &[u8]), (20, b"x"), (32, b""), (32, b"passphrase")][i % 4];
-    Bip32PrivateKey::from_bip39_entropy(&seed_bytes(i, len), pw)
+    let k = Bip32PrivateKey::from_bip39_entropy(&seed_bytes(i % 4, len), pw);
+    if i < 4 {
+        return k;
+    }
+    // roots 4..7: the same key material IMPORTED as raw bytes with the third-highest scalar bit set.
+    // Such a key is structurally valid (lowest three bits clear, highest two bits 01) but is not in
+    // the form key generation produces; every codec has to carry it unchanged.
+    let mut b = k.as_bytes();
+    b[31] |= 0x20;
+    Bip32PrivateKey::from_bytes(&b).expect("harness: imported xprv")
 }
 
 #[derive(Clone, Copy, Debug, PartialEq)]
@@ -400,8 +409,16 @@ fn ref_derive_private(xprv: &[u8], index: u32) -> Vec<u8> {
 
 fn sc_derive(alphabet: Vec<u32>, depth: usize) -> impl Fn(&mut Ctx) + Sync {
     move |ctx: &mut Ctx| {
-        let ri = ctx.choose_free(4);
+        let ri = ctx.choose_free(8);
         let n = ctx.choose_free(depth + 1);
+        if ri >= 4 {
+            // imported roots outside the generated form: derivation from them may leave the valid
+            // scalar range (that is what the cleared bit is for), so only the key itself is examined
+            if n > 0 {
+                return;
+            }
+            ctx.hit("imported-root-with-third-highest-bit-set");
+        }
         let path: Vec<u32> = (0..n).map(|_| alphabet[ctx.choose_free(alphabet.len())]).collect();
         let what = || format!("root #{} path {:x?}", ri, path);
         ctx.set_sample(|| what());
@@ -692,7 +709,7 @@ pub fn scenario(name: &str, tier: Tier) -> Option<BoxedScenario> {
 
 pub fn run(tier: Tier, seed: u64) -> i32 {
     let mut rep = Report::new(P, tier, seed);
-    rep.rule = "sign_verify: 3 key kinds (normal, extended, raw key of a BIP32 key) x 3 seeds x 8 messages (0,1,31,32,33,64,65,255 bytes): signature verifies under the wrapper and under cryptoxide directly, is deterministic, and is rejected for EVERY single-bit flip of the message, of the signature and of the public key, for a lengthened / shortened message and for every other key of the alphabet; every encoding (bytes, hex, Bech32) of signature, public and private key round-trips, the Bech32 string read independently has the expected human-readable part and payload, no decoder accepts another type's string, wrong lengths are refused. witness_helpers: make_vkey_witness x 3 key kinds, make_icarus_bootstrap_witness, make_daedalus_bootstrap_witness x 3 seeds x 4 hashes: public key, chain code and attributes are the key's / address's, the signature verifies over exactly the 32 hash bytes and over none of its 256 single-bit neighbours nor a transform. derivation: 4 roots (entropy 16/20/32 bytes, with/without passphrase) x every path up to depth D over the index alphabet: each private step equals an independent implementation of BIP32-Ed25519 V2, each soft step commutes with to_public, each hardened step from a public key is refused; at the end of every path all encodings (bytes, hex, Bech32 xprv/xpub, 128-byte form incl. layout and wrong lengths), chain codes and a signature are checked. emip3: 4 passwords x 8 plaintext lengths (incl. 0) x 2 salt/nonce pairs: container layout, round trip, every other and near-miss password refused, every single-bit flip and every truncation of the container refused (thorough: for every case, containers over 80 bytes: salt, nonce, tag and the first and last 8 ciphertext bytes; quick: plaintexts of 1 and 2 bytes under two passwords), malformed arguments refused.".into();
+    rep.rule = "sign_verify: 3 key kinds (normal, extended, raw key of a BIP32 key) x 3 seeds x 8 messages (0,1,31,32,33,64,65,255 bytes): signature verifies under the wrapper and under cryptoxide directly, is deterministic, and is rejected for EVERY single-bit flip of the message, of the signature and of the public key, for a lengthened / shortened message and for every other key of the alphabet; every encoding (bytes, hex, Bech32) of signature, public and private key round-trips, the Bech32 string read independently has the expected human-readable part and payload, no decoder accepts another type's string, wrong lengths are refused. witness_helpers: make_vkey_witness x 3 key kinds, make_icarus_bootstrap_witness, make_daedalus_bootstrap_witness x 3 seeds x 4 hashes: public key, chain code and attributes are the key's / address's, the signature verifies over exactly the 32 hash bytes and over none of its 256 single-bit neighbours nor a transform. derivation: 4 roots (entropy 16/20/32 bytes, with/without passphrase; plus the same four imported as raw bytes with the third-highest scalar bit set - valid but not in generated form - at path length 0) x every path up to depth D over the index alphabet: each private step equals an independent implementation of BIP32-Ed25519 V2, each soft step commutes with to_public, each hardened step from a public key is refused; at the end of every path all encodings (bytes, hex, Bech32 xprv/xpub, 128-byte form incl. layout and wrong lengths), chain codes and a signature are checked. emip3: 4 passwords x 8 plaintext lengths (incl. 0) x 2 salt/nonce pairs: container layout, round trip, every other and near-miss password refused, every single-bit flip and every truncation of the container refused (thorough: for every case, containers over 80 bytes: salt, nonce, tag and the first and last 8 ciphertext bytes; quick: plaintexts of 1 and 2 bytes under two passwords), malformed arguments refused.".into();
     rep.assume("randomly generated keys (generate_ed25519*) are outside a deterministic enumeration; keys come from seeds, as in the property's quantifier");
     rep.assume("Ed25519, HMAC-SHA512, PBKDF2 and ChaCha20-Poly1305 themselves (cryptoxide) are trusted; the property is about the library's use of them");
     rep.trusted_base = vec!["cryptoxide (ed25519 verify, extended_to_public, hmac, sha2)".into(), "bech32 crate (independent reading of encoded strings)".into(), "BIP32-Ed25519 specification as transcribed in props/c12.rs::ref_derive_private".into()];
@@ -703,6 +720,7 @@ pub fn run(tier: Tier, seed: u64) -> i32 {
         "encodings:extended-key",
         "witness-signs-the-hash",
         "daedalus-key-outside-normal-form",
+        "imported-root-with-third-highest-bit-set",
         "soft-derivation-commutes",
         "soft-derivation-commutes-at-max-soft-index",
         "hardened-from-public-refused",
